@@ -655,9 +655,22 @@ def resolve_pending(R, hits, pending, stage_ok):
     bit in both orders (every stage of compare_pair agreed).  (b) separates the recorded defect of the algorithm
     from a changed implementation that loses vertices on the same class of inputs.  Everything else is a violation."""
     kf = [k for k in R.known if k.get("id") == "F26"]
+    kf_raise = [k for k in R.known if "AssertionError" in k.get("match", "")]
     for p in pending:
         key = p["key"]
         reproduced = key is not None and stage_ok.get((key, "o12")) is True and stage_ok.get((key, "o21")) is True
+        if p.get("raised"):
+            # the point buffer of intersect_halfplanes (3n rows) is exhausted: attributed to the recorded defect only if
+            # the binary64 model of the recorded algorithm ends in the same assertion on the implementation's halfplanes
+            # (checked stage by stage in compare_pair) and the face lines are coincident / concurrent
+            degenerate = p["plane"] is not None and finite(p["plane"]) and \
+                (hg.concurrent_lines(p["t1"], p["t2"], p["plane"]) or len(hg.exact_polygon(p["t1"], p["t2"], p["plane"])) < 3)
+            if kf_raise and reproduced and degenerate:
+                hits[0] += 1
+                R.known_finding(kf_raise[0]["id"], kf_raise[0].get("what", p["what"])[:300])
+            else:
+                R.failure(p["what"] + ("" if reproduced else " [not reproduced by the binary64 model]"), p["case"], site=p["site"])
+            continue
         if kf and reproduced and hg.concurrent_lines(p["t1"], p["t2"], p["plane"]):
             hits[0] += 1
             R.known_finding("F26", kf[0].get("what", p["what"])[:300])
@@ -752,6 +765,12 @@ def run(tier, seed, replay=None):
     for bi, (c, r) in enumerate(zip(bodies, bres)):
         if r is None or "exc" in r:
             continue
+        if r.get("raised"):
+            # find_contact_surface raised AssertionError: judge the raising tetrahedron pairs as single pairs
+            for ct in r.get("raising_pairs", []):
+                rerun.append(dict(kind="pair", cls="rerun_raised_" + c["cls"], t1=ct["t1"], e1=ct["e1"], t2=ct["t2"], e2=ct["e2"],
+                                  E1=r["E"][0], E2=r["E"][1], body_case=bi))
+            continue
         cs = r.get("contacts", [])
         take = cs if len(cs) <= 4 else R.rng.sample(cs, 4)
         # contacts whose area / swapped polygon looks wrong are re-run too (at most 12 per case): the verdict
@@ -800,6 +819,7 @@ def run(tier, seed, replay=None):
 
     # ---------------- certificates
     cert_exprs, cert_idx = [], []
+    raised = []
     hist = {}
     n_inter = {}
     for i, (c, r) in enumerate(zip(allpairs, allpres)):
@@ -811,6 +831,11 @@ def run(tier, seed, replay=None):
         for o, (ta, ea, tb, eb, Ea) in (("o12", (c["t1"], c["e1"], c["t2"], c["e2"], c["E1"])),
                                         ("o21", (c["t2"], c["e2"], c["t1"], c["e1"], c["E2"]))):
             ro = r[o]
+            if ro.get("raised"):
+                raised.append(dict(what=f"intersect_tetrahedron_pair raised {ro['raised']} ({o}, class {c['cls']}): the "
+                                        f"`n_intersections < len(points)` assertion of intersect_halfplanes", case=dict(c, order=o),
+                                   t1=ta, t2=tb, plane=ro.get("plane0"), site="intersect_halfplanes", key=i, raised=True))
+                continue
             if "expect_disjoint" in c:
                 continue
             if not ro["inter"]:
@@ -841,6 +866,12 @@ def run(tier, seed, replay=None):
         if r is None or "exc" in r:
             R.failure(f"find_contact_surface raised {None if r is None else r.get('exc')}: {None if r is None else r.get('exc_msg')}",
                       c, site="find_contact_surface")
+            continue
+        if r.get("raised"):
+            if not r.get("raising_pairs"):
+                R.failure("find_contact_surface raised AssertionError and no single tetrahedron pair reproduces it", c, site="find_contact_surface")
+            r.update(contacts=[], reported_pairs=[], intersection=False, w12=[0.0] * 6, w21=[0.0] * 6, n_contacts=0)
+            r.pop("all_pairs", None)
             continue
         for k, ct in enumerate(r["contacts"]):
             body_contacts += 1
@@ -943,6 +974,8 @@ def run(tier, seed, replay=None):
         if r is None or "exc" in r:
             continue
         a, b = r["o12"], r["o21"]
+        if a.get("raised") or b.get("raised"):
+            continue
         L = scale_of(c["t1"], c["t2"])
         ok = True
         for o, ro, ta, tb in (("o12", a, c["t1"], c["t2"]), ("o21", b, c["t2"], c["t1"])):
@@ -1015,7 +1048,7 @@ def run(tier, seed, replay=None):
                                 ct["t1"], ct["t2"], ct["plane"], "intersect_tetrahedron_pair", key=ct.get("_rerun"))
     # re-run contacts must reproduce what find_contact_surface stored
     for c, r in zip(rerun, rres):
-        if r is None or "exc" in r:
+        if r is None or "exc" in r or "expect" not in c:
             continue
         o, ex = r["o12"], c["expect"]
         if not o["inter"] or not same_bits(o["plane"], ex["plane"]) or not same_bits(o["poly"], ex["poly"]) \
@@ -1058,7 +1091,7 @@ def run(tier, seed, replay=None):
             else:
                 distinct.add(cm.canon_hash(u))
 
-    resolve_pending(R, f18_hits, pending, stage_ok)
+    resolve_pending(R, f18_hits, pending + raised, stage_ok)
     T["coq_model"] = round(time.time() - t0, 1)
     if WORKER_NOTES:
         R.notes.append(dict(worker_retries=list(WORKER_NOTES)))
@@ -1183,7 +1216,9 @@ def compare_pair(m, c, ro, ta, ea, tb, eb, Ea, Eb, stats, branch):
     if "pts" in ro or "pts_exc" in ro:
         stats["bit_exact_stage_comparisons"] += 1
         if "pts_exc" in ro:
-            if iso[5] != [[-102.0]]:
+            tick("intersect_halfplanes: point buffer exhausted (assertion)")
+            # compiled code does not check array bounds: an overflow of the 3n rows (model: EIndex) also ends in the assertion
+            if iso[5] not in ([[-102.0]], [[-101.0]]):
                 diffs.append(f"intersect_halfplanes: implementation raised AssertionError, model {iso[5]}")
         elif not same_bits(iso[5], ro["pts"]):
             diffs.append(f"intersect_halfplanes (on the implementation's halfplanes): model {iso[5]} implementation {ro['pts']}")
@@ -1223,6 +1258,13 @@ def compare_pair(m, c, ro, ta, ea, tb, eb, Ea, Eb, stats, branch):
             diffs.append(f"compute_contact_force: model {mf} implementation com={ro['com']} force={ro['force']} area={ro['area']}")
         tick("compute_contact_force: %d triangles" % (len(ro["poly"]) - 2))
         tick("compute_contact_force: " + ("area > 0" if ro["area"] > 0 else "area == 0"))
+    if ro.get("raised"):
+        if "pts_exc" not in ro:
+            diffs.append("intersect_tetrahedron_pair raised AssertionError but intersect_halfplanes on its halfplanes did not")
+        if not (len(fin) == 1 and fin[0] in (-101.0, -102.0)):
+            if not near_tie(ro, ta, tb):
+                diffs.append(f"intersect_tetrahedron_pair raised AssertionError, chained model result {fin}")
+        return diffs
     # ---- the public function against the chained model
     sig_impl = (bool(ro.get("same")), ro.get("pre"), len(ro.get("hps", [])) if "hps" in ro else None,
                 len(ro["pts"]) if "pts" in ro else None, bool(ro["inter"]), len(ro["poly"]) if ro.get("poly") else 0)
@@ -1279,7 +1321,7 @@ def targeted_search(R, tier):
         L = scale_of(c["t1"], c["t2"])
         ok = True
         for o, ro, ta, tb in (("o12", a, c["t1"], c["t2"]), ("o21", b, c["t2"], c["t1"])):
-            if "expect_disjoint" in c or ro.get("same") or not (ro["inter"] or ro.get("pre")) or not finite(ro["plane"]):
+            if "expect_disjoint" in c or ro.get("same") or ro.get("raised") or not (ro["inter"] or ro.get("pre")) or not finite(ro["plane"]):
                 continue
             ok = check_area(R, hits, ta, tb, ro["plane"], ro["inter"], ro.get("area", 0.0), dict(c, result=ro, order=o), o + ", search",
                             key=i, pending=pending) and ok
